@@ -83,6 +83,22 @@ def run(F, R):
     nd = detk.nondet_sites(F, [S + "::enumerate_parquet", S + "::target_split_bytes", S + "::SplitSet::digest"], allow=("storage::metadata_cache",))
     R.check(not nd, "C11.R3", "enumeration-deterministic", f"nondeterminism: {[(str(c), k) for c, k in nd][:4]}", f.loc(), dict(functions=len(F.closure_of([S + '::enumerate_parquet']))))
 
+    st = F.statics_of([S + "::enumerate_parquet", S + "::target_split_bytes", S + "::SplitSet::digest"])
+    foreign = {k: v for k, v in st.items() if not k.startswith("storage::metadata_cache::") and "__CALLSITE" not in k and "::META" not in k}
+    R.check(not foreign, "C11.R3", "enumeration-stateless", f"enumeration/digest depends on process-global state {sorted(foreign)} (only the validated footer cache is allowed)", f.loc(), dict(statics=sorted(st)))
+    # every Ok(..) the function returns carries the SplitSet literal built (after the sort) in this very call
+    okrets = [(i, rv) for i, j, dst, rv, line in f.stmts() if dst == "0" and rv[0] == "agg" and rv[1] == "adt:std::result::Result::Ok"]
+    R.floor("C11.R2", "Ok(..) returns of enumerate_parquet", len(okrets), 1)
+    for i, rv in okrets:
+        o = origin(f, rv[2][0])
+        fresh = o[0] == "rv" and o[1][0] == "agg" and o[1][1] == "adt:" + S + "::SplitSet"
+        if not fresh:
+            # let set = SplitSet{..}; ...; Ok(set)
+            w = derives_from(f, [rv[2][0]], lambda k, x: None)
+            ds = f.defs().get(place_local(op_place(rv[2][0])), []) if op_place(rv[2][0]) else []
+            fresh = len(ds) == 1 and ds[0][1] == "stmt" and ds[0][2][1][0] == "agg" and ds[0][2][1][1] == "adt:" + S + "::SplitSet"
+        R.check(fresh, "C11.R2", f"return#{okrets.index((i, rv))}:computed-in-this-call", "enumerate_parquet can return a split set that was not computed from the footers in this call", f.loc(i), dict(origin=o[0]))
+
     # ---- R4
     fk = [c for c in F.fam_calls(f.path) if c.name == S + "::file_key"]
     R.floor("C11.R4", "file_key calls in enumerate_parquet", len(fk), 1)
